@@ -19,7 +19,7 @@ def scanNames (rel : String) (bi : Nat) : Nat → List DL.Term → List String
     (match t with
      | .var x => x
      | .const _ => s!"_const_a{bi}_c{i}"
-     | .wild => s!"_ph_{rel}_{i}") :: scanNames rel bi (i + 1) ts
+     | .wild => s!"_ph_a{bi}_{rel}_{i}") :: scanNames rel bi (i + 1) ts
 
 /-- constant filters in column order (195-223); only integer constants are in the fragment -/
 def constFilters : Nat → List DL.Term → Option (List Pred)
